@@ -135,11 +135,14 @@ Definition trans_core (mat : list (list Q)) (minmax pw : list Q) : tres :=
   else if negb (Qlt_bool 0 (dotQ pw pw)) then TRaised
   else trans_body true mat minmax pw.
 
-(** sel/prob/trans.py (mat, obj_wt, vec_wt):  mat * vec_wt,  projection on obj_wt *)
-Definition trans_sel_prob (mat : list (list Q)) (obj_wt vec_wt : list Q) : tres := trans_body true mat vec_wt obj_wt.
-(** sel/transfn.py (mat, objfn_wt, wt):  mat * wt,  projection on objfn_wt *)
-Definition trans_sel_fn (mat : list (list Q)) (objfn_wt wt : list Q) : tres := trans_body true mat wt objfn_wt.
-(** the selection copies as they were before the guard was copied in *)
+(** sel/prob/trans.py (mat, obj_wt, vec_wt):  mat * obj_wt,  projection on vec_wt   (since commit 9b993ed9) *)
+Definition trans_sel_prob (mat : list (list Q)) (obj_wt vec_wt : list Q) : tres := trans_body true mat obj_wt vec_wt.
+(** sel/transfn.py (mat, objfn_wt, wt):  mat * objfn_wt,  projection on wt   (since commit 9b993ed9) *)
+Definition trans_sel_fn (mat : list (list Q)) (objfn_wt wt : list Q) : tres := trans_body true mat objfn_wt wt.
+(** the FORMER code of both selection copies (before commit 9b993ed9): mat * vec_wt, projection on obj_wt — the two
+    vectors used with exchanged roles.  Kept only as a regression witness. *)
+Definition old_trans_sel (mat : list (list Q)) (obj_wt vec_wt : list Q) : tres := trans_body true mat vec_wt obj_wt.
+(** the selection copies as they were before the guard was copied in (before commit 47ce3c75; roles still exchanged) *)
 Definition trans_sel_unguarded (mat : list (list Q)) (obj_wt vec_wt : list Q) : tres := trans_body false mat vec_wt obj_wt.
 
 (** * comparison helpers for the correspondence shards *)
